@@ -47,9 +47,9 @@ MIX = {
     "C08": ("history", "history", "start", "oneshot", "ping"),
     "C09": ("history", "ping", "start", "oneshot"),
     "C10": ("oneshot", "oneshot", "start"),
-    "C11": ("start", "start", "history", "ping"),
-    "C12": ("start", "ping", "history"),
-    "C13": ("start", "history", "oneshot", "ping"),
+    "C11": ("start", "tie", "history", "ping"),
+    "C12": ("start", "ping", "history", "tie"),
+    "C13": ("start", "history", "oneshot", "ping", "tie"),
     "C14": ("robust",),
     "C18": ("history", "history", "start"),
 }
